@@ -44,7 +44,9 @@ def main():
     state = {"runs": 0}
 
     @settings(database=None, deadline=None, suppress_health_check=list(HealthCheck), max_examples=10**9)
-    @given(prop.strategy("thorough"))
+    # quick-tier sizes: a fuzz execution must stay cheap (thousands per minute); the large
+    # structures are the sharded search's business
+    @given(prop.fuzz_strategy() if hasattr(prop, "fuzz_strategy") else prop.strategy("quick"))
     def test(case):
         state["runs"] += 1
         try:
